@@ -3,12 +3,22 @@ M5 (part) — views of `adept::Array<Rank,Type,IsActive>`: how each view-forming
 derives `data_`, `dimensions_` and `offset_` of the returned array from those of `*this`.
 
 Transcribed from
-  include/adept/RangeIndex.h   EndIndex::value_with_len_, get_index_with_len (both builds),
+  include/adept/RangeIndex.h   EndIndex::value_with_len_, get_index_with_len (both builds), get_stride_with_len,
                                RangeIndex::begin/end/stride(len), AllIndex::begin/end/stride
+  include/adept/BinaryOperation.h  value_with_len_ of BinaryOperation, BinaryOpScalarLeft, BinaryOpScalarRight and the
+                               `operation` of Add, Subtract, Multiply, Divide, Max, Min on `int`s (`end` arithmetic and
+                               integer-vector expressions in index position: `EndExpr`, `VExpr`)
   include/adept/Array.h        operator()(ranged ...) / update_index, operator()(all scalar),
                                operator[], subset, T / in_place_transpose, permute, diag_vector,
                                submatrix_on_diagonal, reshape, soft_link, is_contiguous, empty,
                                pack_row_major_contiguous_ / pack_column_major_
+
+The const overloads of these members (`operator() const`, `subset const`, `operator[] const`, `T() const`,
+`soft_link() const`) are separate copies of the same code in the C++; they have the same transcription (the driver
+maps `cslice`, `csubset`, … to the functions below and the harness calls the const overload).  So have the members
+of `Array<Rank,Type,true>` (active arrays: the same template) and of `FixedArray` (FixedArray.h: its own copy of
+`operator()`, `update_index`, `operator[]`, `subset`, `permute`, `diag_vector`, `submatrix_on_diagonal`; offsets are
+the packed row-major ones of the static dimensions, i.e. `fresh true dims`).
 
 A view is (`data_` as an element offset from the start of the parent allocation, `dimensions_`,
 `offset_`).  Indices are `Int` so that the address theorems also cover what the *unchecked* build
@@ -72,21 +82,84 @@ def View.isEmpty (v : View) : Bool :=
 
 /-! ### index expressions -/
 
-/-- an `int`, or the rank-0 expression `end - k` (`EndIndex::value_with_len_` gives `len-1`) -/
+/-- the binary operations on integer expressions that can appear in index position
+    (`ADEPT_DEFINE_OPERATION` in BinaryOperation.h: `+ - * /`, `max`, `min`) -/
+inductive BinOp
+  | add | sub | mul | div | max | min
+deriving Repr, DecidableEq
+
+/-- `Add/Subtract/Multiply/Divide/Max/Min::operation(left, right)` on `int`s, the operands in THIS order
+    (`/` is the C++ integer division, which truncates towards zero; division by zero is undefined
+    behaviour in the C++, see `EndExpr.defined`) -/
+def BinOp.eval : BinOp → Int → Int → Int
+  | .add, a, b => a + b
+  | .sub, a, b => a - b
+  | .mul, a, b => a * b
+  | .div, a, b => a.tdiv b
+  | .max, a, b => if a < b then b else a      -- `left < right ? right : left`
+  | .min, a, b => if a < b then a else b      -- `left < right ? left : right`
+
+/-- a scalar index expression: an `int`, or a rank-0 integer expression built from `end`
+    (`EndIndex::value_with_len_` gives `len-1`) with the binary operations of BinaryOperation.h.
+    `bin op (lit k) e` is the C++ class `BinaryOpScalarLeft` (`k OP e`:
+    `value_with_len_ = operation(left.value(), right.value_with_len(j,len))`), `bin op e (lit k)` is
+    `BinaryOpScalarRight` (`e OP k`: `operation(left.value_with_len(j,len), right.value())`), `bin op e₁ e₂`
+    is `BinaryOperation` (`operation(left.value_with_len(j,len), right.value_with_len(j,len))`).
+    `fromEnd k` abbreviates `end - k` (= `bin sub last (lit k)`, lemma `fromEnd_eq`).
+    (Unary minus / `abs` … on an expression do not compile in index position in the pinned tree:
+    `UnaryOperation::value_with_len_` is a template whose parameter cannot be deduced.) -/
 inductive EndExpr
   | lit (k : Int)
   | fromEnd (k : Int)
+  | last                                     -- `end`
+  | bin (op : BinOp) (l r : EndExpr)
 deriving Repr, DecidableEq
 
+/-- `value_with_len_(0, len)` / the `int` itself -/
 def EndExpr.resolve (len : Nat) : EndExpr → Int
   | .lit k => k
   | .fromEnd k => (len : Int) - 1 - k
+  | .last => (len : Int) - 1
+  | .bin op l r => op.eval (l.resolve len) (r.resolve len)
+
+/-- no division by zero is executed while evaluating the expression for a dimension of this length
+    (the C++ has undefined behaviour otherwise; such expressions are outside the property) -/
+def EndExpr.defined (len : Nat) : EndExpr → Bool
+  | .bin .div l r => l.defined len && r.defined len && r.resolve len != 0
+  | .bin _ l r => l.defined len && r.defined len
+  | _ => true
+
+/-- a rank-1 integer expression used as an index vector: built from one `intVector` (`idx`), `int`s and `end` -/
+inductive VExpr
+  | lit (k : Int)
+  | last
+  | idx
+  | bin (op : BinOp) (l r : VExpr)
+deriving Repr, DecidableEq
+
+/-- `value_with_len_(j, len)` of the expression when the index vector holds `xs`
+    (`Array<1,int>::value_with_len_(j,len) = data_[j*offset_[0]]`) -/
+def VExpr.valueWithLen (xs : List Int) (j : Nat) (len : Nat) : VExpr → Int
+  | .lit k => k
+  | .last => (len : Int) - 1
+  | .idx => xs.getD j 0
+  | .bin op l r => op.eval (l.valueWithLen xs j len) (r.valueWithLen xs j len)
+
+/-- the scalar expression that one entry `x` of the index vector stands for -/
+def VExpr.at (x : Int) : VExpr → EndExpr
+  | .lit k => .lit k
+  | .last => .last
+  | .idx => .lit x
+  | .bin op l r => .bin op (l.at x) (r.at x)
+
+/-- the entries of the index-vector expression, one scalar expression per entry of `idx` -/
+def VExpr.entries (ve : VExpr) (xs : List Int) : List EndExpr := xs.map ve.at
 
 /-- one argument of `Array::operator()` -/
 inductive Ix
   | at (e : EndExpr)                 -- scalar index
   | range (b e : EndExpr)            -- range(b,e): RangeIndex with stride 1
-  | stride (b e : EndExpr) (s : Int) -- stride(b,e,s)
+  | stride (b e s : EndExpr)         -- stride(b,e,s); `s` through `get_stride_with_len` (never range-tested)
   | all                              -- __
 deriving Repr, DecidableEq
 
@@ -116,7 +189,7 @@ def updateIndex (checked : Bool) (len : Nat) (off : Int) : Ix → Except Err (In
       let (inc, n, o) ← updateRange checked len off b e 1
       .ok (inc, some (n, o))
   | .stride b e s => do
-      let (inc, n, o) ← updateRange checked len off b e s
+      let (inc, n, o) ← updateRange checked len off b e (s.resolve len)
       .ok (inc, some (n, o))
   | .all =>
       -- AllIndex: begin 0, end len-1, stride 1; no bounds test
@@ -285,6 +358,24 @@ def apply (checked : Bool) (v : View) : Op → Except Err View
   | .reshape nd => reshape v nd
   | .softLink => softLink v
 
+/-- the index expressions of one argument -/
+def Ix.exprs : Ix → List EndExpr
+  | .at e => [e]
+  | .range b e => [b, e]
+  | .stride b e s => [b, e, s]
+  | .all => []
+
+/-- every index expression of the call can be evaluated for the dimension it indexes -/
+def argsDefined : List Nat → List Ix → Bool
+  | d :: ds, a :: as => a.exprs.all (·.defined d) && argsDefined ds as
+  | _, _ => true
+
+def Op.defined (v : View) : Op → Bool
+  | .slice args => argsDefined v.dims args
+  | .subset be => argsDefined v.dims (be.map fun p => Ix.range p.1 p.2)
+  | .sub1 e => e.defined (v.dims.headD 0)
+  | _ => true
+
 /-- apply a list of operations, stopping at the first error -/
 def run (checked : Bool) (v : View) : List Op → Except Err View
   | [] => .ok v
@@ -298,7 +389,7 @@ def run (checked : Bool) (v : View) : List Op → Except Err View
 def expandSlice : List Nat → List Ix → List Int → List Int
   | d :: ds, .at e :: as, ix => e.resolve d :: expandSlice ds as ix
   | d :: ds, .range b _ :: as, i :: ix => (b.resolve d + i) :: expandSlice ds as ix
-  | d :: ds, .stride b _ s :: as, i :: ix => (b.resolve d + i * s) :: expandSlice ds as ix
+  | d :: ds, .stride b _ s :: as, i :: ix => (b.resolve d + i * s.resolve d) :: expandSlice ds as ix
   | _ :: ds, .all :: as, i :: ix => i :: expandSlice ds as ix
   | _, _, _ => []
 
